@@ -272,6 +272,47 @@ def real_runs(rep, rng, tier):
                     rep.violation("DynamicsData.time_slice does not select the steps inside the time window", case)
         rep.count(1)
         rep.nontrivial(("real", k, adaptive))
+    # environment form: one directory per job, the same RELATIVE output name in each, the working directory changes after every
+    # solve: each solution's frames, labels and times must stay those of its own run
+    import os
+    cwd_ = os.getcwd()
+    with tempfile.TemporaryDirectory(prefix="pyt_c05j_") as td:
+        jobs = []
+        try:
+            for jb, (k, T) in enumerate(((3, 0.031), (2, 0.052))):
+                jd = os.path.join(td, f"job_{jb}")
+                os.makedirs(jd)
+                os.chdir(jd)
+                states = []
+                opts = runs.make_options(None, solve_time=T, dt_init=1e-3 * (jb + 1), dt_max=1e-3 * (jb + 1), adaptive=False, save_every=k,
+                                         output_file="out.h5")
+                sol, solver = runs.traced_solve(dev, opts, A=0.3 + 0.2 * jb, currents={"source": 1.0, "drain": -1.0},
+                                                on_step=lambda solver, state, kw, res, states=states: states.append(
+                                                    (np.array(res.psi, copy=True), float(res.dt))))
+                jobs.append((sol, solver, states, k, jd))
+            os.chdir(td)
+            for sol, solver, states, k, jd in jobs:
+                case = {"job_dir": os.path.basename(jd), "save_every": k, "output_file": "out.h5 (relative)", "cwd_now": "another directory"}
+                try:
+                    tt = np.concatenate([[0.0], np.cumsum([d_ for _, d_ in states])])
+                    want_steps = sorted(set(range(0, len(states) + 1, k)) | {len(states)})
+                    okj = len(sol.times) == len(want_steps) and np.max(np.abs(np.asarray(sol.times) - tt[want_steps])) < 1e-12
+                    for fi, stp in enumerate(want_steps):
+                        sol.solve_step = fi
+                        want = solver.psi_init if stp == 0 else states[stp - 1][0]
+                        okj = okj and np.array_equal(np.asarray(sol.tdgl_data.psi), want)
+                    okj = okj and len(sol.dynamics.dt) == len(states)
+                except Exception as e:  # noqa: BLE001
+                    okj = False
+                    case["error"] = f"{type(e).__name__}: {e}"[:140]
+                if not okj:
+                    rep.violation("after the working directory changed, a solution written under a relative output name no longer shows "
+                                  "the frames / times / records of its own run", case)
+                rep.count(1)
+        except Exception as e:  # noqa: BLE001
+            rep.violation(f"solving with a relative output name in a job directory raised {type(e).__name__}: {e}"[:200], {})
+        finally:
+            os.chdir(cwd_)
 
 
 def run(rep: common.Report, tier: str, seed: int, replay=None) -> int:
